@@ -23,9 +23,12 @@ type bndEngine struct {
 
 	callers map[*ssa.Function][]callSite // in-fragment static call sites per callee
 
-	pre  map[*ssa.Function][]*cand
-	post map[*ssa.Function][]*cand
-	inv  map[*trackedStruct][]*cand
+	pre    map[*ssa.Function][]*cand
+	post   map[*ssa.Function][]*cand
+	postOK map[*ssa.Function][]*cand // postconditions of successful returns (error result nil)
+	inv    map[*trackedStruct][]*cand
+	lenK   []int64
+	devirt map[*types.Var]*ssa.Function // func-typed struct fields with a single production value
 
 	roMemo    map[*ssa.Global]*roInfo
 	mwMemo    map[*ssa.Function]map[*types.Var]bool
@@ -97,7 +100,7 @@ func substLin(l Lin, m map[string]Lin, keep bool) (Lin, bool) {
 func newBndEngine(w *World, name string, frag []*ssa.Function, tracked []*types.Named) *bndEngine {
 	e := &bndEngine{w: w, name: name, frag: map[*ssa.Function]bool{}, entries: map[*ssa.Function]bool{}, ctxs: map[*ssa.Function][]*fnCtx{},
 		callers: map[*ssa.Function][]callSite{}, pre: map[*ssa.Function][]*cand{}, post: map[*ssa.Function][]*cand{}, inv: map[*trackedStruct][]*cand{},
-		roMemo: map[*ssa.Global]*roInfo{}, mwMemo: map[*ssa.Function]map[*types.Var]bool{}}
+		roMemo: map[*ssa.Global]*roInfo{}, mwMemo: map[*ssa.Function]map[*types.Var]bool{}, postOK: map[*ssa.Function][]*cand{}}
 	for _, f := range frag {
 		if f != nil && f.Blocks != nil && !e.frag[f] {
 			e.frag[f] = true
@@ -133,8 +136,8 @@ func fragmentFrom(w *World, entries []*ssa.Function, inPkg func(string) bool) []
 		out = append(out, f)
 		eachInstr(f, func(in ssa.Instruction) {
 			if c, ok := in.(ssa.CallInstruction); ok {
-				if cal := calleeOf(c); cal.Static != nil {
-					walk(cal.Static)
+				if callee := w.staticOrFieldCallee(c); callee != nil {
+					walk(callee)
 				}
 			}
 			if mc, ok := in.(*ssa.MakeClosure); ok {
@@ -707,7 +710,8 @@ func (c *fnCtx) factsAt(b *ssa.BasicBlock, idx int) factSetB {
 	}
 	// dominating calls: postconditions and re-established invariants
 	addCall := func(call ssa.CallInstruction) {
-		cal := calleeOf(call)
+		var cal Callee
+		cal.Static = c.e.w.staticOrFieldCallee(call)
 		if cal.Static == nil {
 			return
 		}
@@ -717,6 +721,15 @@ func (c *fnCtx) factsAt(b *ssa.BasicBlock, idx int) factSetB {
 				if cd.alive {
 					if l, ok := substLin(cd.L, bind, false); ok {
 						fs.ineqs = append(fs.ineqs, Ineq{l, "post(" + cal.Static.Name() + "): " + cd.desc})
+					}
+				}
+			}
+			if len(c.e.postOK[cal.Static]) > 0 && c.errNilKnown(call, b) {
+				for _, cd := range c.e.postOK[cal.Static] {
+					if cd.alive {
+						if l, ok := substLin(cd.L, bind, false); ok {
+							fs.ineqs = append(fs.ineqs, Ineq{l, "post(" + cal.Static.Name() + "): " + cd.desc})
+						}
 					}
 				}
 			}
